@@ -42,7 +42,7 @@ extern "C" void vh_tbase_ctor(TBase*) {}
 static char g_tmpl[TLEN + 1];
 extern "C" void h_json_newlines()
 {
-  uint32_t n = static_cast<uint32_t>(vnd_range(0, TLEN));
+  uint32_t const n = TLEN;                 // concrete length per query (a symbolic terminator position makes every string copy symbolic in size)
   for (uint32_t i = 0; i < TLEN; i++) g_tmpl[i] = i < n ? (vnd_bool() ? '\n' : (vnd_bool() ? 'a' : ' ')) : 0;
   g_tmpl[TLEN] = 0;
   JS* j = new (&g_j.j) JS();
